@@ -311,10 +311,10 @@ fn gen_random(rng: &mut Rng, id: usize) -> String {
         rng.below(131) as usize
     } else if k < 90 {
         *rng.pick(&[0usize, 1, 15, 16, 17, 31, 32, 33, 47, 48, 49, 63, 64, 65, 95, 96, 97, 127, 128, 129])
-    } else if k < 98 {
+    } else if k < 99 {
         131 + rng.below(470) as usize
     } else {
-        1000 + rng.below(4001) as usize
+        1000 + rng.below(2001) as usize
     };
     let mut s = valid_text(rng, abc, l);
     let k = rng.below(100);
